@@ -47,6 +47,23 @@ def _jsonable(x: Any) -> Any:
         return repr(x)
 
 
+def wild(pattern: str, key: str) -> bool:
+    """'*' is the only wildcard (keys contain brackets, so fnmatch classes are unsuitable)."""
+    parts = pattern.split("*")
+    if len(parts) == 1:
+        return pattern == key
+    if not key.startswith(parts[0]) or not key.endswith(parts[-1]):
+        return False
+    pos = len(parts[0])
+    end = len(key) - len(parts[-1])
+    for mid in parts[1:-1]:
+        i = key.find(mid, pos, end)
+        if i < 0:
+            return False
+        pos = i + len(mid)
+    return pos <= end
+
+
 class Report:
     def __init__(self, pid: str, tier: str, seed: int, level: str):
         self.pid = pid
@@ -127,7 +144,7 @@ class Report:
         for v in self.violations:
             hit = None
             for k in open_items:
-                if fnmatch.fnmatchcase(v["key"], k["key"]):
+                if wild(k["key"], v["key"]):
                     hit = k
                     break
             if hit is None:
